@@ -33,9 +33,64 @@ def _strictly_inside(node: Any) -> bool:
         return False
 
 
+def gen_emptied_store_script(g: docops.Gen) -> Optional[dict]:
+    """Three calls: delete a child of a detached (pool) node, move that node into the document - which
+    empties the store the deleted child still names - and offer the deleted child to another list."""
+    rng = g.rng
+    sess = g.s
+    ws = g.wrappers(True)
+    if not ws:
+        return None
+    cands = []
+    for k, P in enumerate(sess.pool):
+        if P is None or not isinstance(P, models.RawTreeModel) or isinstance(P, I.SPECIAL_EXPR) or not docops.self_contained(P):
+            continue
+        for m in I.members_of(P).values():
+            if m.kind not in ('raw_repeated', 'raw_repeated_comments'):
+                continue
+            try:
+                items = list(getattr(P, m.name))
+            except Exception:
+                continue
+            for i, it in enumerate(items):
+                if isinstance(it, models.RawTreeModel):
+                    cands.append((k, P, m, i, it))
+    rng.shuffle(cands)
+    for k, P, m, i, it in cands[:6]:
+        homes = [(ref, o, mm) for ref, o, mm in ws if mm.types and isinstance(P, mm.types)
+                 and docops._indent_fits(P, g.child_indent(o, mm), g.safe)]
+        takers = [(ref, o, mm) for ref, o, mm in ws if mm.types and isinstance(it, mm.types)]
+        if not homes or not takers:
+            continue
+        href, ho, hm = rng.choice(homes)
+        tref, to, tm = rng.choice(takers)
+        fresh = g.gen_item(to, tm)
+        if fresh is None or (isinstance(fresh.get('node'), dict) and 'pool' in fresh['node']):
+            continue
+        try:
+            hn, tn = len(sess.resolve(href)), len(sess.resolve(tref))
+        except Unresolvable:
+            continue
+        zi = min(len(getattr(sess, 'zombies', [])) + 1, 4) - 1
+        last = {'op': 'seq', 'k': 'extend', 't': tref, 'm': tm.name, 'items': [fresh, {'node': {'zombie': zi}}],
+                'fault': 'F1z_deleted_node'}
+        if tn >= 2 and rng.random() < 0.6:
+            last = {'op': 'seq', 'k': 'setslice', 't': tref, 'm': tm.name, 'sl': [0, 2, None],
+                    'items': [fresh, {'node': {'zombie': zi}}], 'fault': 'F1z_deleted_node'}
+        sess.script = [
+            {'op': 'seq', 'k': 'insert', 't': href, 'm': hm.name, 'i': docops.pick_index(rng, hn, 0.7), 'items': [{'node': {'pool': k}}]},
+            last]
+        return {'op': 'seq', 'k': 'delitem', 't': {'r': ['pool', k], 'p': [m.name]}, 'm': m.name, 'i': i}
+    return None
+
+
 def gen_F(g: docops.Gen) -> Optional[dict]:
     rng = g.rng
     sess = g.s
+    if rng.random() < 0.12:
+        op = gen_emptied_store_script(g)
+        if op is not None:
+            return op
     nodes = g.nodes()
     attached = [(ref, n) for ref, n in nodes if not isinstance(n, I.SPECIAL_EXPR) and _strictly_inside(n)]
     by_type: dict[type, list] = {}
@@ -128,6 +183,48 @@ def gen_F(g: docops.Gen) -> Optional[dict]:
                 if ok:
                     if kind in ('setslice', 'extend') and rng.random() < 0.4:
                         op['as_iter'] = True
+                    faults.append(op)
+        if dom == 'custom':
+            # Custom.values takes plain values and nodes alike; an attached node (token or tree) anywhere
+            # in a batch must be refused before the first position is written
+            d = attached_of((models.Account, models.Amount, models.EscapedString, models.Date, models.Bool))
+            if d is not None:
+                tgt = sess.resolve(d['attached'])
+                inside_owner = any(x is tgt for x in list(getattr(owner, 'raw_values', [])))
+                lead = []
+                for _ in range(rng.choice([0, 1, 1, 2])):
+                    it = g.gen_item(owner, m)
+                    if it is not None and 'val' in it:
+                        lead.append(it)
+                batch = lead + [{'node': d}]
+                if rng.random() < 0.3:
+                    it = g.gen_item(owner, m)
+                    if it is not None and 'val' in it:
+                        batch.append(it)
+                kind = rng.choice(['setslice', 'setslice', 'setitem', 'append', 'insert', 'extend'])
+                op = {'op': 'seq', 'k': kind, 't': ref, 'm': m.name, 'fault': 'F1_attached_donor', 'must_raise': 'F1'}
+                ok = not inside_owner
+                if kind == 'setslice':
+                    if n < len(batch):
+                        ok = False
+                    else:
+                        a = rng.randrange(n - len(batch) + 1)
+                        op['sl'] = [a, a + len(batch), None]
+                        op['items'] = batch
+                elif kind == 'setitem':
+                    if not n:
+                        ok = False
+                    else:
+                        op['i'] = rng.randrange(n)
+                        op['items'] = [{'node': d}]
+                elif kind == 'insert':
+                    op['i'] = docops.pick_index(rng, n, 0.7)
+                    op['items'] = [{'node': d}]
+                elif kind == 'append':
+                    op['items'] = [{'node': d}]
+                else:
+                    op['items'] = batch
+                if ok:
                     faults.append(op)
         # F2
         if rng.random() < 0.5:
